@@ -318,6 +318,61 @@ func TestGovcReplayLagrange(t *testing.T) {
 }
 `
 		return runOverlayTest(rep, "pkg/math/polynomial", "zz_govc_replay_lagrange_test.go", src, "TestGovcReplayLagrange")
+	case "pkg/pedersen:(Parameters).Verify", "pkg/pedersen:(Parameters).Commit":
+		src := `package pedersen
+
+import (
+	"math/big"
+	"testing"
+
+	"github.com/cronokirby/saferith"
+	"github.com/taurusgroup/multi-party-sig/pkg/math/arith"
+)
+
+func govcPNat(v int64) *saferith.Nat { return new(saferith.Nat).SetUint64(uint64(v)) }
+func govcPInt(v int64) *saferith.Int { return new(saferith.Int).SetBig(big.NewInt(v), 16) }
+
+func govcPow(b, e, n int64) *big.Int {
+	base := big.NewInt(b)
+	ex := big.NewInt(e)
+	if e < 0 {
+		base = new(big.Int).ModInverse(base, big.NewInt(n))
+		ex = big.NewInt(-e)
+	}
+	return new(big.Int).Exp(base, ex, big.NewInt(n))
+}
+
+// Commit and Verify against big-integer arithmetic over a small modulus: s^a t^b = S T^e (mod N)
+func TestGovcReplayPedersen(t *testing.T) {
+	const N, s, tt = 3233, 4, 9
+	p := New(arith.ModulusFromN(saferith.ModulusFromNat(govcPNat(N))), govcPNat(s), govcPNat(tt))
+	for _, x := range []int64{0, 1, 5, -3, 77} {
+		for _, y := range []int64{0, 2, -1, 40} {
+			want := new(big.Int).Mod(new(big.Int).Mul(govcPow(s, x, N), govcPow(tt, y, N)), big.NewInt(N))
+			if got := p.Commit(govcPInt(x), govcPInt(y)).Big(); got.Cmp(want) != 0 {
+				t.Fatalf("Commit(%d, %d) = %v, s^x t^y mod N = %v", x, y, got, want)
+			}
+		}
+	}
+	for _, c := range [][5]int64{{3, 5, 2, 16, 25}, {1, 1, 0, 36, 1}, {2, 0, 1, 4, 4}, {3, 5, 2, 17, 25}, {0, 0, 3, 1, 1}, {-2, 1, 1, 7, 8}} {
+		a, b, e, S, T := c[0], c[1], c[2], c[3], c[4]
+		lhs := new(big.Int).Mod(new(big.Int).Mul(govcPow(s, a, N), govcPow(tt, b, N)), big.NewInt(N))
+		ok := new(big.Int).GCD(nil, nil, big.NewInt(S), big.NewInt(N)).Int64() == 1 && new(big.Int).GCD(nil, nil, big.NewInt(T), big.NewInt(N)).Int64() == 1
+		want := false
+		if ok {
+			rhs := new(big.Int).Mod(new(big.Int).Mul(govcPow(T, e, N), big.NewInt(S)), big.NewInt(N))
+			want = lhs.Cmp(rhs) == 0
+		}
+		if got := p.Verify(govcPInt(a), govcPInt(b), govcPInt(e), govcPNat(S), govcPNat(T)); got != want {
+			t.Fatalf("Verify(a=%d b=%d e=%d S=%d T=%d) = %v, the equation says %v", a, b, e, S, T, got, want)
+		}
+	}
+	if p.Verify(nil, govcPInt(1), govcPInt(1), govcPNat(4), govcPNat(9)) {
+		t.Fatal("Verify accepts an absent exponent")
+	}
+}
+`
+		return runOverlayTest(rep, "pkg/pedersen", "zz_govc_replay_pedersen_test.go", src, "TestGovcReplayPedersen")
 	case "internal/mta:newMta":
 		src := `package mta
 
